@@ -68,14 +68,21 @@ def main():
         print("unknown property", prop, "known:", sorted(PROPERTIES))
         return 2
     spec = PROPERTIES[prop]
-    engine = get_engine(spec["engine"])
     tier = args.tier
-    n_runs = args.runs or spec["runs"][tier]
-    budget = float(os.environ.get("VERIF_BUDGET_S", spec.get("budget", {"quick": 90, "thorough": 900})[tier]))
+    parts = spec.get("parts") or [{"engine": spec["engine"], "runs": spec["runs"], "block": spec.get("block", 8)}]
+    budget = float(os.environ.get("VERIF_BUDGET_S", spec.get("budget", {"quick": 120, "thorough": 1500})[tier]))
     workers = args.workers or min(16, os.cpu_count() or 4)
     t0 = time.time()
-    results, truncated = core.explore(spec["engine"], prop, tier, seed, n_runs, budget, workers,
-                                      block=spec.get("block", 8))
+    results, truncated = [], False
+    for part in parts:
+        n_runs = part["runs"][tier]
+        if args.runs:
+            n_runs = max(1, int(args.runs * part["runs"][tier] / max(1, sum(q["runs"][tier] for q in parts))))
+        res, trunc = core.explore(part["engine"], prop, tier, seed, n_runs, budget, workers, block=part.get("block", 8))
+        for r in res:
+            r["engine"] = part["engine"]
+        results.extend(res)
+        truncated = truncated or trunc
     wall_explore = time.time() - t0
 
     known = core.load_known()
@@ -98,7 +105,7 @@ def main():
     replay_path = None
     if harness_errors:
         r = harness_errors[0]
-        print(f"HARNESS-ERROR engine={spec['engine']} run={r['k']}:\n{r['harness_error']}")
+        print(f"HARNESS-ERROR engine={r.get('engine')} run={r['k']}:\n{r['harness_error']}")
         rc = 2
     if viol_runs and rc == 0:
         r, new = viol_runs[0]
@@ -106,10 +113,11 @@ def main():
         target = (v["property"], v["clause"])
         print(f"violation in run {r['k']}: clause={v['clause']} op={v['op']}\n  {v['msg']}")
         trace = r["trace"]
+        engine = get_engine(r["engine"])
         minimised, tried = core.shrink(engine, trace, prop, target, max_s=float(os.environ.get("VERIF_SHRINK_S", "60")))
         res_min = core.run_trace(engine, minimised, prop)
         vmin = next((x for x in res_min["violations"] if (x["property"], x["clause"]) == target), v)
-        replay_path = core.write_replay(prop, seed, r["k"], spec["engine"], prop, minimised, trace, vmin)
+        replay_path = core.write_replay(prop, seed, r["k"], r["engine"], prop, minimised, trace, vmin)
         print(f"minimised after {tried} candidate executions; clause={vmin['clause']}\n  {vmin['msg']}")
         code, out = core.replay_in_fresh_process(replay_path)
         if code == 1 and "VIOLATION property=%s" % prop in out:
@@ -128,7 +136,7 @@ def main():
 
     wall = time.time() - t0
     if not args.no_evidence:
-        write_evidence(prop, spec, tier, seed, results, truncated, wall, wall_explore, len(viol_runs), workers, engine)
+        write_evidence(prop, spec, tier, seed, results, truncated, wall, wall_explore, len(viol_runs), workers, parts)
     ok_runs = len(results)
     print(f"{prop}: tier={tier} runs={ok_runs}{' (wall cap reached before all planned runs)' if truncated else ''} "
           f"violating_runs={len(viol_runs)} known={len(known_hits)} harness_errors={len(harness_errors)} "
@@ -136,7 +144,7 @@ def main():
     return rc
 
 
-def write_evidence(prop, spec, tier, seed, results, truncated, wall, wall_explore, n_viol, workers, engine):
+def write_evidence(prop, spec, tier, seed, results, truncated, wall, wall_explore, n_viol, workers, parts):
     counters, faults, probes = Counter(), Counter(), Counter()
     sigs = set()
     steps = 0
@@ -162,8 +170,9 @@ def write_evidence(prop, spec, tier, seed, results, truncated, wall, wall_explor
             "rule": spec["rule"],
             "samples": samples,
             "runs_per_hour": int(n / max(wall_explore, 1e-6) * 3600),
-            "seeds": {"VERIF_SEED": seed, "run_indices": [0, n - 1] if n else [],
-                      "derivation": "sha256(f'{seed}/{engine}/{k}')"},
+            "seeds": {"VERIF_SEED": seed,
+                      "runs_per_engine": {q["engine"]: sum(1 for r in results if r.get("engine") == q["engine"]) for q in parts},
+                      "derivation": "run k of engine E uses random.Random(sha256(f'{seed}/{E}/{k}')), k = 0..runs-1"},
             "sim_steps": steps,
             "simulated_time": None,
             "simulated_time_note": "the library has no clock, timer or deadline; progress is counted in simulated steps "
@@ -176,7 +185,7 @@ def write_evidence(prop, spec, tier, seed, results, truncated, wall, wall_explor
             "schedule_dimension": spec.get("schedule_dimension", "none"),
             "workers": workers,
             "wall_cap_reached": truncated,
-            "engine": spec["engine"],
+            "engines": [q["engine"] for q in parts],
         },
         "assumptions": spec.get("assumptions", []),
     }
